@@ -71,8 +71,12 @@ def run(c):
     t = c.record(san, ["own", "all"], out=c.path("own-san.ndjson"), timeout=900,
                  env={"ASAN_OPTIONS": "detect_leaks=1:abort_on_error=0:exitcode=134", "UBSAN_OPTIONS": "halt_on_error=1:exitcode=134"},
                  sig={"stage": "sanitizer", "matrix": "own"})
-    res = c.tlc_trace("C10Trace", t, label="ownership/sanitized")
-    c.judge(res, "ownership history of a matrix (sanitizer build)", sigfn=lambda rec, cl: {"matrix": rec.get("m"), "history": rec.get("h")}, stage="sanitizer")
+    # (a sanitizer abort - already reported by c.record as a crash - may leave an empty or truncated trace)
+    lines = [x for x in open(t).read().splitlines() if x.startswith("{") and x.endswith("}")]
+    if lines:
+        open(t, "w").write("\n".join(lines) + "\n")
+        res = c.tlc_trace("C10Trace", t, label="ownership/sanitized")
+        c.judge(res, "ownership history of a matrix (sanitizer build)", sigfn=lambda rec, cl: {"matrix": rec.get("m"), "history": rec.get("h")}, stage="sanitizer")
     # stack contents + a team smaller than omp_get_max_threads(): the library called from inside the
     # caller's parallel region, 3 threads configured, after four different stack fills
     t = c.record(plain, ["stack", "all"], out=c.path("stack.ndjson"), timeout=1800, env={"OMP_NUM_THREADS": 3})
